@@ -7,7 +7,7 @@
 (* "needs memory or time proportional to the bounding box" shows as an abort or *)
 (* a timeout, not as a wrong answer.                                            *)
 EXTENDS Container, Json
-CONSTANTS Origins, MaxLevel
+CONSTANTS Origins, MaxLevel, Skip
 VARIABLES c
 vars == <<c>>
 
@@ -23,6 +23,7 @@ SparseSets == <<
 Deepest(s) == CHOOSE z \in Levels(s) : \A y \in Levels(s) : y <= z
 Emit(rec) == PrintT(<<"REPLAY", ToJson(rec)>>)
 Init == \E i \in 1..Len(SparseSets), f \in Formats, o \in Origins :
+           /\ i \notin Skip                                     \* (quick tier: the sets that keep a writer busy for minutes are left out)
            /\ Deepest(SparseSets[i]) <= MaxLevel \/ i = 7        \* set 7: deep but compact next to one far tile on level 0
            /\ c = <<i, f, o>>
            /\ Emit([k |-> "case", sparse |-> 1, origin |-> o, fmt |-> f, tf |-> "pbf", tc |-> "gzip", tiles |-> SparseSets[i],
